@@ -8,6 +8,8 @@ import (
 	"go/types"
 	"strings"
 
+	"golang.org/x/tools/go/cfg"
+
 	"rscheck/cfgq"
 	"rscheck/core"
 	"rscheck/lin"
@@ -26,14 +28,21 @@ func (r *rs) r6() {
 			return flow.MethodOn(call, name, isW) && len(call.Args) == 1 && arg(call.Args[0])
 		}
 	}
-	isStrConst := func(e ast.Expr) bool { _, ok := core.StringConst(info, e); return ok }
+	// a terminator write: w.WriteString(K) or w.Write(K) with K a constant byte string
+	termBytes := func(body ast.Node, call *ast.CallExpr) ([]byte, bool) {
+		if !(flow.MethodOn(call, "WriteString", isW) || flow.MethodOn(call, "Write", isW)) || len(call.Args) != 1 {
+			return nil, false
+		}
+		return flow.ConstBytes(info, body, call.Args[0])
+	}
 	// checks the constant terminator emitted by fn and returns the step locating it
 	crlf := func(fn *core.Fn, g *cfgq.Graph) flow.Step {
-		for _, call := range flow.FindCalls(fn.Decl.Body, wcall("WriteString", isStrConst)) {
-			s, _ := core.StringConst(info, call.Args[0])
-			c.Check("R6.grammar", fn.Decl.Name.Name+"/terminator", call.Pos(), s == "\r\n", fmt.Sprintf("the terminator written is %q, RESP requires CR LF: the decoder rejects (or mis-frames) what the encoder produced", s))
+		isTerm := func(call *ast.CallExpr) bool { _, ok := termBytes(fn.Decl.Body, call); return ok }
+		for _, call := range flow.FindCalls(fn.Decl.Body, isTerm) {
+			s, _ := termBytes(fn.Decl.Body, call)
+			c.Check("R6.grammar", fn.Decl.Name.Name+"/terminator", call.Pos(), string(s) == "\r\n", fmt.Sprintf("the terminator written is %q, RESP requires CR LF: the decoder rejects (or mis-frames) what the encoder produced", s))
 		}
-		return flow.Step{Name: "write CRLF", Is: flow.CallOn(g, wcall("WriteString", isStrConst))}
+		return flow.Step{Name: "write CRLF", Is: flow.CallOn(g, isTerm)}
 	}
 	seq := func(fn *core.Fn, g *cfgq.Graph, wcalls int, steps ...flow.Step) {
 		name := fn.Decl.Name.Name
@@ -44,7 +53,12 @@ func (r *rs) r6() {
 			c.Undecidedf("R6.grammar", name+"/sequence", fn.Decl.Pos(), "%d writes on the buffered writer, %d expected", n, wcalls)
 			return
 		}
-		problem, w, und := flow.Sequence(g, steps)
+		// a path on which the value was found to be nil has nothing more to write
+		var cut func(*cfg.Block, int) bool
+		if v := param(info, fn, 0); v != nil {
+			cut = flow.Establishes(g, func(f cfgq.Fact) bool { isNil, ok := flow.NilCmp(info, f, flow.IsObj(info, v)); return ok && isNil })
+		}
+		problem, w, und := flow.SequenceCut(g, steps, cut)
 		if und {
 			c.Undecidedf("R6.grammar", name+"/sequence", fn.Decl.Pos(), "%s", problem)
 			return
@@ -86,7 +100,10 @@ func (r *rs) r6() {
 	}
 	lenStep := func(g *cfgq.Graph, v types.Object) flow.Step {
 		return flow.Step{Name: "write len(value) line", Is: flow.CallOn(g, func(call *ast.CallExpr) bool {
-			return core.CalleeFunc(info, call) == encodeInt.Obj && len(call.Args) == 1 && lenOf(info, g.Body, call.Args[0]) == v
+			// the length line of the non-nil value: an encodeInt call whose argument is not the constant -1
+			// (that it is len(value) exactly when the value is non-nil is R5's business)
+			_ = v
+			return core.CalleeFunc(info, call) == encodeInt.Obj && len(call.Args) == 1 && !isConst(info, call.Args[0], -1)
 		})}
 	}
 	if fn := r.flatMethod("encoder", "encodeBulkBytes"); fn != nil {
@@ -102,9 +119,10 @@ func (r *rs) r6() {
 		core.Inspect(fn.Decl.Body, func(m ast.Node) bool {
 			switch s := m.(type) {
 			case *ast.ForStmt:
-				b := pat.Stmt("_i = 0").Match(info, s.Init, ab)
-				if b != nil && s.Cond != nil && s.Post != nil && pat.Expr("_i < len(_a)").Match(info, s.Cond, b) != nil && pat.Stmt("_i++").Match(info, s.Post, b) != nil {
-					if n, _ := pat.Expr("_e.encodeResp(_a[_i])").Find(info, s.Body, b); n != nil {
+				if idx := flow.CountingLoop(info, s, flow.LenForm(info, p)); idx != nil {
+					iid := ast.NewIdent(idx.Name())
+					info.Uses[iid] = idx
+					if n, _ := pat.Expr("_e.encodeResp(_a[_i])").Find(info, s.Body, pat.Binds{"_a": ab["_a"], "_i": iid}); n != nil {
 						elem = n.(*ast.CallExpr)
 					}
 				}
@@ -333,7 +351,6 @@ func (r *rs) r7() {
 				return true
 			}
 			fills++
-			j := flow.Obj(info, lx.Index)
 			call, _ := ast.Unparen(as.Rhs[0]).(*ast.CallExpr)
 			var rendered ast.Expr
 			if f := core.CalleeFunc(info, call); call != nil && core.IsFunc(f, "strconv", "", "Itoa") && len(call.Args) == 1 {
@@ -341,28 +358,66 @@ func (r *rs) r7() {
 			} else if call != nil && core.IsFunc(f, "strconv", "", "FormatInt") && len(call.Args) == 2 && isConst(info, call.Args[1], 10) {
 				rendered = call.Args[0]
 			}
-			if j == nil || rendered == nil {
-				c.Undecidedf("R7.bias", "fill/bias", as.Pos(), "table slot assignment %s is not `table[j] = decimal(j + c)`", c.Src(as))
+			if rendered == nil {
+				c.Undecidedf("R7.bias", "fill/bias", as.Pos(), "table slot assignment %s is not `table[slot] = decimal(value)`", c.Src(as))
 				return true
 			}
+			// slot and value as linear forms over the same loop variable: value = slot + c1
 			jform := lin.Of(info, lx.Index)
 			val := lin.Of(info, rendered)
-			if !(lin.Form{Coef: val.Coef}).Equal(lin.Form{Coef: jform.Coef}) {
-				c.Undecidedf("R7.bias", "fill/bias", as.Pos(), "the value rendered into slot j (%s) is not j plus a constant", c.Src(rendered))
+			if !(lin.Form{Coef: val.Coef}).Equal(lin.Form{Coef: jform.Coef}) || len(jform.Coef) != 1 {
+				c.Undecidedf("R7.bias", "fill/bias", as.Pos(), "the value rendered into the slot (%s) is not the slot index plus a constant", c.Src(rendered))
 				return true
 			}
 			c1 := val.Const - jform.Const
 			c.Check("R7.bias", "fill/bias", as.Pos(), k2+c1 == 0, fmt.Sprintf("slot j holds the rendering of j%+d but itos looks v up at slot v%+d: every table hit renders v%+d instead of v", c1, k2, k2+c1))
-			// every slot is filled: the assignment sits in a loop over the whole table
+			// every slot is filled: the loop variable runs so that the slot index covers 0 .. len(table)-1
 			full := false
+			var loopVar types.Object
+			core.Inspect(lx.Index, func(x ast.Node) bool {
+				if id, ok := x.(*ast.Ident); ok {
+					if _, isVar := core.ObjOf(info, id).(*types.Var); isVar {
+						loopVar = core.ObjOf(info, id)
+					}
+				}
+				return true
+			})
 			for _, n := range core.PathTo(fdBody, as) {
 				switch l := n.(type) {
 				case *ast.RangeStmt:
-					full = full || flow.IsObj(info, tab)(l.X) && l.Key != nil && flow.IsObj(info, j)(l.Key)
+					full = full || flow.IsObj(info, tab)(l.X) && l.Key != nil && flow.IsObj(info, loopVar)(l.Key) && jform.Const == 0
 				case *ast.ForStmt:
-					if l.Init != nil && l.Cond != nil && l.Post != nil {
-						jb := pat.Binds{"_j": lx.Index, "_t": lx.X}
-						full = full || pat.Stmt("_j = 0").Match(info, l.Init, jb) != nil && pat.Expr("_j < len(_t)").Match(info, l.Cond, jb) != nil && pat.Stmt("_j++").Match(info, l.Post, jb) != nil
+					// for v := A; v < B; v++ with slot = v + off: slots A+off .. B+off-1 must be 0 .. size-1
+					ini, ok1 := l.Init.(*ast.AssignStmt)
+					inc, ok2 := l.Post.(*ast.IncDecStmt)
+					if !ok1 || !ok2 || l.Cond == nil || len(ini.Lhs) != 1 || len(ini.Rhs) != 1 || inc.Tok != token.INC || !flow.IsObj(info, loopVar)(ini.Lhs[0]) || !flow.IsObj(info, loopVar)(inc.X) {
+						continue
+					}
+					start, okS := core.IntConst(info, ini.Rhs[0])
+					if !okS || start+jform.Const != 0 {
+						continue
+					}
+					vid := ast.NewIdent(loopVar.Name())
+					info.Uses[vid] = loopVar
+					vform := lin.Of(info, vid)
+					for _, fct := range cfgq.Facts(l.Cond, true) {
+						if hi, isLower, ok := flow.Bound(info, fct, vform); ok && !isLower && size >= 0 && hi+jform.Const == size-1 {
+							full = true
+						}
+						if lenKey != "" || true {
+							// v + off < len(table)
+							w := lin.Form{Coef: map[string]int64{}, Const: jform.Const}
+							for a, v := range jform.Coef {
+								w.Coef[a] += v
+							}
+							lf := flow.LenForm(info, tab)
+							for a, v := range lf.Coef {
+								w.Coef[a] -= v
+							}
+							if flow.LinIs(info, fct, w, token.LSS, 0) {
+								full = true
+							}
+						}
 					}
 				}
 			}
